@@ -79,13 +79,13 @@ Proof. intros W. induction src as [|it src IH]; intros items H x Hx; simpl in H.
   - destruct it as [ps|n star|n star].
     + destruct (clean_const c src) as [r|]; [|discriminate]. simpl in H. inversion H; subst.
       destruct Hx as [Hx|Hx]; [discriminate | apply (IH r eq_refl x Hx)].
-    + destruct (ahas (c_bases c) n) eqn:A.
+    + destruct (is_anon n); [discriminate|]. destruct (ahas (c_bases c) n) eqn:A.
       * destruct (clean_const c src) as [r|]; [|discriminate]. simpl in H. inversion H; subst.
         destruct Hx as [Hx|Hx]; [inversion Hx; subst; exact A | apply (IH r eq_refl x Hx)].
       * destruct (ahas (c_sups c) n) eqn:B; [|discriminate].
         destruct (clean_const c src) as [r|]; [|discriminate]. simpl in H. inversion H; subst.
         destruct Hx as [Hx|Hx]; [inversion Hx; subst; exact B | apply (IH r eq_refl x Hx)].
-    + unfold ref_seqs in H. destruct (afind (c_sups c) n) as [s|] eqn:F; [|discriminate].
+    + destruct (is_anon n); [discriminate|]. unfold ref_seqs in H. destruct (afind (c_sups c) n) as [s|] eqn:F; [|discriminate].
       destruct (clean_const c src) as [r|]; [|discriminate]. simpl in H. inversion H; subst.
       apply in_app_or in Hx. destruct Hx as [Hx|Hx]; [|apply (IH r eq_refl x Hx)].
       apply in_map_iff in Hx. destruct Hx as [y [E Hy]]. inversion E; subst.
@@ -375,7 +375,6 @@ Proof. destruct post as [|z post] using rev_ind.
   - intros H. right. exists post. rewrite app_comm_cons, app_assoc in H. apply app_inj_tail in H. destruct H as [H ->].
     split; [reflexivity | symmetry; exact H]. Qed.
 
-Definition is_anon (n : string) : bool := prefix "_Anon" n.
 Lemma anon_is_anon k : is_anon (anon_name k) = true.
 Proof. unfold is_anon, anon_name. simpl. generalize (NilEmpty.string_of_uint (Nat.to_uint k)). intros [|a t]; reflexivity. Qed.
 
@@ -488,9 +487,9 @@ Record INV (c : comp) (ctr : nat) : Prop := { inv_wf : WF c; inv_wf2 : WF2 c; in
 Lemma grow_nil_eq c : grow c [] [] [] = c.
 Proof. destruct c. unfold grow. simpl. rewrite !app_nil_r. reflexivity. Qed.
 
-Lemma add_super_sequence_inv c ctr name items len c' ctr' : INV c ctr -> is_anon name = false ->
+Lemma add_super_sequence_inv c ctr name items len c' ctr' : INV c ctr ->
   add_super_sequence c ctr name items len = OK (c', ctr') -> INV c' ctr'.
-Proof. intros [W W2 F] HN H. unfold add_super_sequence in H.
+Proof. intros [W W2 F] H. unfold add_super_sequence in H. destruct (is_anon name) eqn:HN; [discriminate|].
   destruct (seq_defined c name) eqn:D; [discriminate|].
   destruct (clean_const c items) as [const|] eqn:CC; [|discriminate]. cbn [bind] in H.
   destruct (build_super c ctr const len) as [[[s anons] ctr1]|] eqn:BS; [|discriminate]. cbn [bind] in H.
@@ -544,9 +543,9 @@ Proof. intros E1 E2 E3 E4 W.
 Lemma fresh_same c c' ctr : c_bases c' = c_bases c -> c_sups c' = c_sups c -> fresh_from c ctr -> fresh_from c' ctr.
 Proof. intros E2 E3 F k Hk. rewrite E2, E3. apply (F k Hk). Qed.
 
-Lemma add_sequence_inv c ctr name ps len c' : INV c ctr -> is_anon name = false ->
+Lemma add_sequence_inv c ctr name ps len c' : INV c ctr ->
   add_sequence c name ps len = OK c' -> INV c' ctr.
-Proof. intros [W W2 F] HN H. unfold add_sequence in H. destruct (seq_defined c name) eqn:D; [discriminate|].
+Proof. intros [W W2 F] H. unfold add_sequence in H. destruct (is_anon name) eqn:HN; [discriminate|]. destruct (seq_defined c name) eqn:D; [discriminate|].
   destruct (get_length_const len ps) as [l k| |k] eqn:G; try discriminate. injection H as H. subst c'.
   set (b := {| b_len := l; b_const := k; b_anon := false |}).
   assert (EQ : set_bases c (c_bases c ++ [(name, b)]) = grow c [(name, b)] [] []).
@@ -624,13 +623,12 @@ Proof. intros [W W2 F] H. unfold add_IO in H.
 (* ---- the whole body ---- *)
 Definition stmt_ok (s : stmt) : bool := match s with SSeq name _ _ => negb (is_anon name) | _ => true end.
 
-Lemma step_inv c ctr s c' ctr' : INV c ctr -> stmt_ok s = true -> step (c, ctr) s = OK (c', ctr') -> INV c' ctr'.
-Proof. intros I HS H. destruct s as [name items len|dummy name items len|opt name names domain sn|low high ins outs]; cbn [step] in H.
-  - simpl in HS. apply negb_true_iff in HS.
-    assert (G : add_super_sequence c ctr name items len = OK (c', ctr') -> INV c' ctr') by apply (add_super_sequence_inv _ _ _ _ _ _ _ I HS).
+Lemma step_inv c ctr s c' ctr' : INV c ctr -> step (c, ctr) s = OK (c', ctr') -> INV c' ctr'.
+Proof. intros I H. destruct s as [name items len|dummy name items len|opt name names domain sn|low high ins outs]; cbn [step] in H.
+  - assert (G : add_super_sequence c ctr name items len = OK (c', ctr') -> INV c' ctr') by apply (add_super_sequence_inv _ _ _ _ _ _ _ I).
     destruct items as [|[ps|n r|n r] [|it2 items]]; try (exact (G H)).
     destruct (add_sequence c name ps len) as [c1|] eqn:A; [|discriminate]. cbn [bind] in H. injection H as H1 H2. subst c1 ctr'.
-    apply (add_sequence_inv _ _ _ _ _ _ I HS A).
+    apply (add_sequence_inv _ _ _ _ _ _ I A).
   - apply (add_strand_inv _ _ _ _ _ _ _ _ I H).
   - destruct (compile_snot sn) as [s0|] eqn:CS; [|discriminate]. cbn [bind] in H.
     destruct (add_structure c opt name names domain s0) as [c1|] eqn:A; [|discriminate]. cbn [bind] in H. injection H as H1 H2. subst c1 ctr'.
@@ -638,13 +636,12 @@ Proof. intros I HS H. destruct s as [name items len|dummy name items len|opt nam
   - destruct (add_kinetic c low high ins outs) as [c1|] eqn:A; [|discriminate]. cbn [bind] in H. injection H as H1 H2. subst c1 ctr'.
     apply (add_kinetic_inv _ _ _ _ _ _ _ I A). Qed.
 
-Lemma steps_inv body : forall c ctr c' ctr', INV c ctr -> forallb stmt_ok body = true ->
+Lemma steps_inv body : forall c ctr c' ctr', INV c ctr ->
   steps (c, ctr) body = OK (c', ctr') -> INV c' ctr'.
-Proof. induction body as [|s body IH]; intros c ctr c' ctr' I HS H; cbn [steps] in H.
+Proof. induction body as [|s body IH]; intros c ctr c' ctr' I H; cbn [steps] in H.
   - injection H as H1 H2. subst. exact I.
-  - simpl in HS. apply andb_prop in HS. destruct HS as [HS1 HS2].
-    destruct (step (c, ctr) s) as [[c1 ctr1]|] eqn:ST; [|discriminate]. cbn [bind] in H.
-    apply (IH c1 ctr1 c' ctr' (step_inv _ _ _ _ _ I HS1 ST) HS2 H). Qed.
+  - destruct (step (c, ctr) s) as [[c1 ctr1]|] eqn:ST; [|discriminate]. cbn [bind] in H.
+    apply (IH c1 ctr1 c' ctr' (step_inv _ _ _ _ _ I ST) H). Qed.
 
 Lemma INV_empty prefix ctr : INV (empty_comp prefix) ctr.
 Proof. constructor.
@@ -661,25 +658,25 @@ Proof. constructor.
 
 (* Every object the compile model returns satisfies both halves of the object invariant, and the
    counter it returns is beyond every anonymous name it used. *)
-Theorem compile_comp_inv ctr prefix d body c ctr' : forallb stmt_ok body = true ->
+Theorem compile_comp_inv ctr prefix d body c ctr' :
   compile_comp ctr prefix d body = OK (c, ctr') -> WF c /\ WF2 c /\ fresh_from c ctr'.
-Proof. intros HS H. unfold compile_comp in H.
+Proof. intros H. unfold compile_comp in H.
   destruct (steps (empty_comp prefix, ctr) body) as [[c1 ctr1]|] eqn:ST; [|discriminate]. cbn [bind fst snd] in H.
   destruct (add_IO c1 d) as [c2|] eqn:IO; [|discriminate]. cbn [bind] in H. injection H as H1 H2. subst c2 ctr1.
-  pose proof (steps_inv body _ _ _ _ (INV_empty prefix ctr) HS ST) as I.
+  pose proof (steps_inv body _ _ _ _ (INV_empty prefix ctr) ST) as I.
   destruct (add_IO_inv _ _ _ _ I IO) as [A B C]. auto. Qed.
 
 (* ---- end to end: what is emitted for any accepted program ---- *)
-Theorem compile_emit_defs ctr prefix d body c ctr' : forallb stmt_ok body = true ->
+Theorem compile_emit_defs ctr prefix d body c ctr' :
   compile_comp ctr prefix d body = OK (c, ctr') ->
   pil_defs (emit_comp c) [] = Some (final_env c) /\
   pil_strands (emit_comp c) (final_env c) =
     map (fun '(n, t) => (c_prefix c +++ n, t_dummy t, Some (flatB c (s_base (t_sup t))), s_len (t_sup t))) (c_strands c).
-Proof. intros HS H. destruct (compile_comp_inv _ _ _ _ _ _ HS H) as [W _]. split; [apply emit_defs, W | apply emit_strands, W]. Qed.
+Proof. intros H. destruct (compile_comp_inv _ _ _ _ _ _ H) as [W _]. split; [apply emit_defs, W | apply emit_strands, W]. Qed.
 
-Theorem compile_emit_wf_pil ctr prefix d body c ctr' : forallb stmt_ok body = true ->
+Theorem compile_emit_wf_pil ctr prefix d body c ctr' :
   compile_comp ctr prefix d body = OK (c, ctr') -> wf_pil (emit_comp c) = true.
-Proof. intros HS H. destruct (compile_comp_inv _ _ _ _ _ _ HS H) as [W [W2 _]]. apply emit_wf_pil; assumption. Qed.
+Proof. intros H. destruct (compile_comp_inv _ _ _ _ _ _ H) as [W [W2 _]]. apply emit_wf_pil; assumption. Qed.
 
 (* the hypothesis is decidable and true of every identifier not starting with the reserved prefix *)
 Lemma prefix_spec p : forall n, prefix p n = true <-> exists t, n = (p +++ t)%string.
